@@ -173,7 +173,7 @@ def run(cx: Cx):
     sites = cx.effects.sites_of(LOC)
     allowed = {PL + '.__init__', addp.qualname, remp.qualname}
     for s in sites:
-        if s.fn.qualname not in allowed:
+        if s.owner_q not in allowed:
             cx.violation('R-DISC', s.fn.qualname, f"_parameters-{s.kind}", f"{s.describe()}: the declaration is written outside the "
                          f"constructor / add_parameter / remove_parameter (building must never change it)", where=s.where)
     cx.floor('_parameters write sites', len(sites), 4)
